@@ -206,7 +206,9 @@ impl Serialize for Vec<u8> {
     fn deserialize(bytes: &[u8]) -> Result<Self, DbError> {
         let len = usize::deserialize(bytes)?;
         let begin = len.serialized_size() as usize;
-        let end = begin + len;
+        let end = begin.checked_add(len).ok_or_else(|| {
+            DbError::serialization(DbErrorType::OutOfBounds, "Vec<u8> deserialization error")
+        })?;
 
         Ok(bytes
             .get(begin..end)
